@@ -13,8 +13,14 @@
       specification.go  Set/Remove{Scope,Contract,Record}Specification, index*Specification,
                         is*SpecUsed, ValidateWriteScopeSpecification (new contract specs exist),
                         ValidateWrite{Contract,Record}Specification
+      objectstore.go    SetOSLocator, RemoveOSLocator, ModifyOSLocator, GetOSLocatorByScope
+      types/scope.go    Scope.AddOwners, RemoveOwners, AddDataAccess, RemoveDataAccess,
+                        ValidatePartiesBasic (at least one party, no two equal parties)
       msg_server.go     WriteScope, DeleteScope (RemoveScope + RemoveNetAssetValues),
-                        AddScopeDataAccess, DeleteScopeDataAccess, WriteSession, WriteRecord (a
+                        AddScopeDataAccess, DeleteScopeDataAccess, AddScopeOwner, DeleteScopeOwner
+                        (all four: GetScope, change the list, ValidateUpdate*, SetScope - so the
+                        lookups are maintained by the same indexScope diff as for WriteScope),
+                        Bind/Delete/ModifyOSLocator, WriteSession, WriteRecord (a
                         record moved to another session: the old session is removed when it
                         has no records left), DeleteRecord, Write/Delete*Specification,
                         Add/DeleteContractSpecTo/FromScopeSpec, AddNetAssetValues
@@ -22,6 +28,7 @@
       0x17 account|scope          [ix_as]      0x11 scope spec|scope          [ix_ss]
       0x19 account|scope spec     [ix_asp]     0x14 contract spec|scope spec  [ix_cs]
       0x20 account|contract spec  [ix_ac]      0x22 scope|denom -> NAV        [navs]
+      0x21 account -> object store locator [locs]  (keyed by ACCOUNT, not by scope)
     (the value-owner lookup 0x18 no longer exists: value owners live in the bank module.)
 
     Identifiers.  UUIDs, record-name hashes, account addresses and denoms are interned to [Z] by
@@ -36,6 +43,9 @@
     Two levels of operation.  [K*] = one exported keeper function, exactly as it behaves (no
     referential guards: SetSession/SetRecord store whatever they are given).  [M*] = the message
     handler: referential guards of Validate* followed by the keeper calls the handler makes.
+    Object store locators belong to accounts: [MBindLoc]'s flag [has_acct] is the fact, observed
+    by the harness in the auth module, that the owner account exists; uri 0 stands for a URI that
+    checkValidURI rejects (no scheme / host, too long).
     NOT modelled (the harness keeps inside): signature / party-role / smart-contract checks
     (every message is signed by all accounts and parties carry the roles the specs ask for),
     value owners (scopes are written without one; C09), record inputs/outputs (always conform),
@@ -56,20 +66,22 @@ Definition key := (Z * Z)%type.
 Record state := St {
   scopes : list scope; sessions : list session; records : list record;
   sspecs : list sspec; cspecs : list cspec; rspecs : list rspec; navs : list nav;
-  ix_as : list key; ix_ss : list key; ix_asp : list key; ix_cs : list key; ix_ac : list key }.
+  ix_as : list key; ix_ss : list key; ix_asp : list key; ix_cs : list key; ix_ac : list key;
+  locs : list (Z * Z) }.                                      (* account -> uri *)
 
-Definition init : state := St [] [] [] [] [] [] [] [] [] [] [] [].
+Definition init : state := St [] [] [] [] [] [] [] [] [] [] [] [] [].
 
-Definition with_scopes s v := St v (sessions s) (records s) (sspecs s) (cspecs s) (rspecs s) (navs s) (ix_as s) (ix_ss s) (ix_asp s) (ix_cs s) (ix_ac s).
-Definition with_sessions s v := St (scopes s) v (records s) (sspecs s) (cspecs s) (rspecs s) (navs s) (ix_as s) (ix_ss s) (ix_asp s) (ix_cs s) (ix_ac s).
-Definition with_records s v := St (scopes s) (sessions s) v (sspecs s) (cspecs s) (rspecs s) (navs s) (ix_as s) (ix_ss s) (ix_asp s) (ix_cs s) (ix_ac s).
-Definition with_sspecs s v := St (scopes s) (sessions s) (records s) v (cspecs s) (rspecs s) (navs s) (ix_as s) (ix_ss s) (ix_asp s) (ix_cs s) (ix_ac s).
-Definition with_cspecs s v := St (scopes s) (sessions s) (records s) (sspecs s) v (rspecs s) (navs s) (ix_as s) (ix_ss s) (ix_asp s) (ix_cs s) (ix_ac s).
-Definition with_rspecs s v := St (scopes s) (sessions s) (records s) (sspecs s) (cspecs s) v (navs s) (ix_as s) (ix_ss s) (ix_asp s) (ix_cs s) (ix_ac s).
-Definition with_navs s v := St (scopes s) (sessions s) (records s) (sspecs s) (cspecs s) (rspecs s) v (ix_as s) (ix_ss s) (ix_asp s) (ix_cs s) (ix_ac s).
-Definition with_ix_scope s a b := St (scopes s) (sessions s) (records s) (sspecs s) (cspecs s) (rspecs s) (navs s) a b (ix_asp s) (ix_cs s) (ix_ac s).
-Definition with_ix_sspec s a b := St (scopes s) (sessions s) (records s) (sspecs s) (cspecs s) (rspecs s) (navs s) (ix_as s) (ix_ss s) a b (ix_ac s).
-Definition with_ix_cspec s a := St (scopes s) (sessions s) (records s) (sspecs s) (cspecs s) (rspecs s) (navs s) (ix_as s) (ix_ss s) (ix_asp s) (ix_cs s) a.
+Definition with_scopes s v := St v (sessions s) (records s) (sspecs s) (cspecs s) (rspecs s) (navs s) (ix_as s) (ix_ss s) (ix_asp s) (ix_cs s) (ix_ac s) (locs s).
+Definition with_sessions s v := St (scopes s) v (records s) (sspecs s) (cspecs s) (rspecs s) (navs s) (ix_as s) (ix_ss s) (ix_asp s) (ix_cs s) (ix_ac s) (locs s).
+Definition with_records s v := St (scopes s) (sessions s) v (sspecs s) (cspecs s) (rspecs s) (navs s) (ix_as s) (ix_ss s) (ix_asp s) (ix_cs s) (ix_ac s) (locs s).
+Definition with_sspecs s v := St (scopes s) (sessions s) (records s) v (cspecs s) (rspecs s) (navs s) (ix_as s) (ix_ss s) (ix_asp s) (ix_cs s) (ix_ac s) (locs s).
+Definition with_cspecs s v := St (scopes s) (sessions s) (records s) (sspecs s) v (rspecs s) (navs s) (ix_as s) (ix_ss s) (ix_asp s) (ix_cs s) (ix_ac s) (locs s).
+Definition with_rspecs s v := St (scopes s) (sessions s) (records s) (sspecs s) (cspecs s) v (navs s) (ix_as s) (ix_ss s) (ix_asp s) (ix_cs s) (ix_ac s) (locs s).
+Definition with_navs s v := St (scopes s) (sessions s) (records s) (sspecs s) (cspecs s) (rspecs s) v (ix_as s) (ix_ss s) (ix_asp s) (ix_cs s) (ix_ac s) (locs s).
+Definition with_ix_scope s a b := St (scopes s) (sessions s) (records s) (sspecs s) (cspecs s) (rspecs s) (navs s) a b (ix_asp s) (ix_cs s) (ix_ac s) (locs s).
+Definition with_ix_sspec s a b := St (scopes s) (sessions s) (records s) (sspecs s) (cspecs s) (rspecs s) (navs s) (ix_as s) (ix_ss s) a b (ix_ac s) (locs s).
+Definition with_locs s v := St (scopes s) (sessions s) (records s) (sspecs s) (cspecs s) (rspecs s) (navs s) (ix_as s) (ix_ss s) (ix_asp s) (ix_cs s) (ix_ac s) v.
+Definition with_ix_cspec s a := St (scopes s) (sessions s) (records s) (sspecs s) (cspecs s) (rspecs s) (navs s) (ix_as s) (ix_ss s) (ix_asp s) (ix_cs s) a (locs s).
 
 (** *** Small list helpers *)
 Definition memz (x : Z) (l : list Z) : bool := existsb (Z.eqb x) l.
@@ -246,6 +258,39 @@ Definition set_nav (st : state) (sc denom price : Z) : option state :=
 Definition remove_navs (st : state) (sc : Z) : state :=
   with_navs st (filter (fun x => negb (fst (fst x) =? sc)) (navs st)).
 
+(** *** Object store locators (objectstore.go): one entry per ACCOUNT (key 0x21 | account) *)
+Definition find_loc (st : state) (a : Z) : option (Z * Z) := find (fun x => fst x =? a) (locs st).
+(** SetOSLocator: checkValidURI, the account must exist in the auth module, not bound yet *)
+Definition set_loc (st : state) (has_acct : bool) (a uri : Z) : option state :=
+  if (uri =? 0) || negb has_acct || isSome (find_loc st a) then None
+  else Some (with_locs st ((a, uri) :: locs st)).
+Definition remove_loc (st : state) (a : Z) : option state :=
+  if isSome (find_loc st a) then Some (with_locs st (filter (fun x => negb (fst x =? a)) (locs st)))
+  else None.
+Definition modify_loc (st : state) (a uri : Z) : option state :=
+  if (uri =? 0) || negb (isSome (find_loc st a)) then None
+  else Some (with_locs st ((a, uri) :: filter (fun x => negb (fst x =? a)) (locs st))).
+(** GetOSLocatorByScope: the locators of the scope's owners, in owner order (an owner listed in
+    both spellings contributes its locator twice); error when the scope does not exist *)
+Definition locs_by_scope (st : state) (id : Z) : option (list (Z * Z)) :=
+  match find_scope st id with
+  | None => None
+  | Some sc => Some (flat_map (fun e => match find_loc st (acct e) with Some l => [l] | None => [] end)
+                              (sc_owners sc))
+  end.
+
+(** *** Owner / data-access list edits (types/scope.go) *)
+Fixpoint nodupz (l : list Z) : bool :=
+  match l with [] => true | x :: t => negb (memz x t) && nodupz t end.
+(** ValidatePartiesBasic on parties that all carry the same role: at least one, no two with the
+    same address STRING (the two spellings of one account are different parties) *)
+Definition owners_basic (l : list Z) : bool := match l with [] => false | _ => nodupz l end.
+(** Scope.AddDataAccess: append every entry that is not there yet (also de-duplicates the request) *)
+Definition add_each (l cur : list Z) : list Z :=
+  fold_left (fun cur a => if memz a cur then cur else cur ++ [a]) l cur.
+(** Scope.RemoveDataAccess / RemoveOwners: drop every entry equal (as a string) to a listed one *)
+Definition drop_all (l cur : list Z) : list Z := filter (fun x => negb (memz x l)) cur.
+
 (** *** Operations *)
 Definition usd : Z := 0.  (* the interned "usd" denom *)
 
@@ -259,7 +304,9 @@ Inductive op :=
 | KSetNav (sc denom price : Z) | KRemoveNavs (sc : Z)
 | MWriteScope (s : scope) (usd_mills : Z)
 | MDeleteScope (id : Z)
-| MAddDataAccess (id a : Z) | MDelDataAccess (id a : Z)
+| MAddDataAccess (id : Z) (l : list Z) | MDelDataAccess (id : Z) (l : list Z)
+| MAddOwners (id : Z) (l : list Z) | MDelOwners (id : Z) (l : list Z)
+| MBindLoc (has_acct : bool) (a uri : Z) | MDelLoc (a : Z) | MModLoc (a uri : Z)
 | MWriteSession (s : session)
 | MWriteRecord (r : record)
 | MDeleteRecord (su n : Z)
@@ -291,26 +338,58 @@ Definition step (st : state) (o : op) : state * bool :=
   | KRemoveNavs sc => ok (remove_navs st sc)
 
   | MWriteScope s mills =>
-      (* ValidateWriteScope: the scope specification must exist; msg.UsdMills > 0 sets a usd NAV *)
+      (* Scope.ValidateBasic: owners are ValidatePartiesBasic; ValidateWriteScope: the scope
+         specification must exist; msg.UsdMills > 0 sets a usd NAV *)
+      if negb (owners_basic (sc_owners s)) then (st, false) else
       if negb (isSome (find_sspec st (sc_spec s))) then (st, false) else
       let st1 := if 0 <? mills then set_nav st (sc_id s) usd mills else Some st in
       of_opt st (option_map (fun st1 => set_scope st1 s) st1)
   | MDeleteScope id =>
       if negb (isSome (find_scope st id)) then (st, false)
       else ok (remove_navs (remove_scope st id) id)
-  | MAddDataAccess id a =>
+  | MAddDataAccess id l =>
+      (* ValidateBasic: the list is not empty; ValidateAddScopeDataAccess: no requested entry is
+         already there (compared as STRINGS); then GetScope -> AddDataAccess -> SetScope.  The
+         scope specification is NOT looked up (scopes without party rollup). *)
+      match l, find_scope st id with
+      | [], _ | _, None => (st, false)
+      | _, Some sc => if existsb (fun a => memz a (sc_da sc)) l then (st, false)
+                      else ok (set_scope st (Sc (sc_id sc) (sc_spec sc) (sc_owners sc) (add_each l (sc_da sc))))
+      end
+  | MDelDataAccess id l =>
+      match l, find_scope st id with
+      | [], _ | _, None => (st, false)
+      | _, Some sc => if negb (forallb (fun a => memz a (sc_da sc)) l) then (st, false)
+                      else ok (set_scope st (Sc (sc_id sc) (sc_spec sc) (sc_owners sc) (drop_all l (sc_da sc))))
+      end
+  | MAddOwners id l =>
+      (* ValidateBasic: ValidatePartiesBasic(msg.Owners); AddOwners: a new party equal to an
+         existing one is an error, otherwise appended; ValidateUpdateScopeOwners: the resulting
+         owners are ValidatePartiesBasic, the scope specification must exist *)
+      if negb (owners_basic l) then (st, false) else
       match find_scope st id with
       | None => (st, false)
-      | Some sc => if memz a (sc_da sc) then (st, false)
-                   else ok (set_scope st (Sc (sc_id sc) (sc_spec sc) (sc_owners sc) (sc_da sc ++ [a])))
+      | Some sc =>
+          let owners' := sc_owners sc ++ l in
+          if existsb (fun a => memz a (sc_owners sc)) l || negb (owners_basic owners')
+             || negb (isSome (find_sspec st (sc_spec sc))) then (st, false)
+          else ok (set_scope st (Sc (sc_id sc) (sc_spec sc) owners' (sc_da sc)))
       end
-  | MDelDataAccess id a =>
-      match find_scope st id with
-      | None => (st, false)
-      | Some sc => if negb (memz a (sc_da sc)) then (st, false)
-                   else ok (set_scope st (Sc (sc_id sc) (sc_spec sc) (sc_owners sc)
-                                             (filter (fun x => negb (x =? a)) (sc_da sc))))
+  | MDelOwners id l =>
+      (* ValidateBasic: at least one address; RemoveOwners: every address must be an owner's
+         (as a STRING), all parties with a listed address go; the rest as for AddScopeOwner - in
+         particular the last owner cannot be removed *)
+      match l, find_scope st id with
+      | [], _ | _, None => (st, false)
+      | _, Some sc =>
+          let owners' := drop_all l (sc_owners sc) in
+          if negb (forallb (fun a => memz a (sc_owners sc)) l) || negb (owners_basic owners')
+             || negb (isSome (find_sspec st (sc_spec sc))) then (st, false)
+          else ok (set_scope st (Sc (sc_id sc) (sc_spec sc) owners' (sc_da sc)))
       end
+  | MBindLoc has_acct a uri => of_opt st (set_loc st has_acct (acct a) uri)
+  | MDelLoc a => of_opt st (remove_loc st (acct a))
+  | MModLoc a uri => of_opt st (modify_loc st (acct a) uri)
   | MWriteSession s =>
       (* existing: the contract spec cannot change; scope, contract spec, the scope's scope spec
          must exist and the scope spec must list the contract spec *)
@@ -389,3 +468,19 @@ Definition run (ops : list op) : state := fold_left (fun st o => fst (step st o)
     than the two raw writers SetSession / SetRecord, which store whatever id they are given). *)
 Definition guarded (o : op) : bool :=
   match o with KSetSession _ | KSetRecord _ => false | _ => true end.
+
+(** Specification references.  The keeper writers SetScope / SetScopeSpecification /
+    SetRecordSpecification store whatever specification ids they are given, and the keeper's
+    RemoveContractSpecification leaves the contract specification's record specifications behind
+    (the message handler removes them first); every message checks what it newly refers to. *)
+Definition spec_guarded (o : op) : bool :=
+  match o with KSetScope _ | KSetSSpec _ | KSetRSpec _ | KRemoveCSpec _ => false | _ => true end.
+
+(** Removals of contract / record specifications: NOT blocked by the sessions / records that use
+    them (isContractSpecUsed only looks at scope specifications - "TODO: Look for sessions";
+    isRecordSpecUsed is the constant false - "TODO: Check for records"). *)
+Definition removes_cr_spec (o : op) : bool :=
+  match o with
+  | KRemoveCSpec _ | MDeleteCSpec _ | KRemoveRSpec _ _ | MDeleteRSpec _ _ => true
+  | _ => false
+  end.
